@@ -554,7 +554,7 @@ fn check_iteration<S: SigT, V: ValT>(
 fn exercise<S: SigT, V: ValT, St: SigStore<S, V>>(c: &mut Case, mut store: St, cfg: &Cfg, pairs: &[(S, V)], plan: Plan, recipe: &str) {
     let ctx = || format!("{} after {} pushes ({})", cfg.show(), pairs.len(), trunc(recipe, 400));
     // push
-    c.check("sig_store_len", store.len() == 0 && store.is_empty(), || format!("fresh store has len {}; {}", store.len(), ctx()));
+    c.check("sig_store_len", store.len() == 0, || format!("fresh store has len {}; {}", store.len(), ctx()));
     let probe = if pairs.is_empty() { 0 } else { c.rng().random_range(0..pairs.len()) };
     for (i, &(sig, val)) in pairs.iter().enumerate() {
         if let Err(e) = store.try_push(SigVal { sig, val }) {
@@ -565,12 +565,7 @@ fn exercise<S: SigT, V: ValT, St: SigStore<S, V>>(c: &mut Case, mut store: St, c
             c.check("sig_store_len", store.len() == i + 1, || format!("SigStore::len() = {} after {} pushes; {}", store.len(), i + 1, ctx()));
         }
     }
-    c.check("sig_store_len", store.len() == pairs.len() && store.is_empty() == pairs.is_empty(), || {
-        format!("SigStore::len() = {} (is_empty {}) after {} pushes; {}", store.len(), store.is_empty(), pairs.len(), ctx())
-    });
-    c.check("max_shard_high_bits", store.max_shard_high_bits() == cfg.mb, || {
-        format!("max_shard_high_bits() = {}, constructed with {}; {}", store.max_shard_high_bits(), cfg.mb, ctx())
-    });
+    c.check("sig_store_len", store.len() == pairs.len(), || format!("SigStore::len() = {} after {} pushes; {}", store.len(), pairs.len(), ctx()));
 
     // model
     let ns = 1usize << cfg.sb;
@@ -718,7 +713,7 @@ fn run_typed<S: SigT, V: ValT>(c: &mut Case, cfg: &Cfg, kind: Kind, n: usize, k1
         c.nontrivial();
     }
     c.describe(|| {
-        let shown: Vec<String> = pairs.iter().take(if pairs.len() <= 48 { 48 } else { 6 }).map(show_pair).collect();
+        let shown: Vec<String> = pairs.iter().take(if pairs.len() <= 5000 { 5000 } else { 64 }).map(show_pair).collect();
         format!(
             "{} with SigVal<{}, {}>; plan {:?}; {} pairs: {}; pushed (first {}): {}",
             cfg.show(),
@@ -838,7 +833,7 @@ fn main() {
             let cfg = Cfg { online, bb, mb, sb };
             for (pi, plan) in [Plan::PartialFirst, Plan::ConsumeOnly, Plan::BorrowConsume].into_iter().enumerate() {
                 for (ki, kind) in [Kind::Uniform, Kind::Mult1024(0), Kind::Boundaries].into_iter().enumerate() {
-                    if ctx.small && kind == Kind::Mult1024(0) {
+                    if (ctx.small && kind == Kind::Mult1024(0)) || (miri && kind == Kind::Boundaries) {
                         continue;
                     }
                     let ty = ti + pi + ki * 2 + online as usize * 3;
